@@ -1,10 +1,28 @@
-(* Props/C20.v — property theorems only.  Execution errors identify the stanza and matched node.
-   `in_stmt_ctx z n e`: e = InContext(Statement [c], cause) with c.stanza_location = z, c.node = n, and
-   `cause` a plain error possibly inside Context::Other wrappers ("matching .. with arm ..").
-   The claim about the STATEMENT location (innermost failing statement in strict mode, failing or
-   enclosing statement in lazy mode) is tied by the correspondence stream, which compares the
-   statement/stanza/source locations and node kind of every context with the model's: see `partial`. *)
-From TSG Require Import Model.Strict Model.Lazy Proofs.StrictMeta Proofs.ErrorCtx Proofs.Captures.
+(* Props/C20.v — property theorems only.  Execution errors identify the stanza, the matched node and the statement.
+   `unwrapped e`: e is a plain error possibly inside Context::Other wrappers ("matching .. with arm ..").
+   `in_stmt_ctx z n e`: e = InContext(Statement [c], cause) with c.stanza_location = z, c.node = n, `cause` unwrapped.
+
+   STRICT (strict_error_ctx, strict_file_error_ctx, strict_error_stmt_loc, strict_file_error_stmt_loc,
+   strict_nested_error_not_plain): the error of a run is the bare cancellation or comes from one (stanza, match)
+   block and sits in ONE statement context carrying the stanza's location, the block's full-match node and the
+   location of a statement s' of that stanza (any nesting depth) that FAILED DIRECTLY: the cause is the error
+   returned by a run of s' itself, in that block, which carries no statement context — whereas whatever a nested
+   block of a statement raises is a cancellation or carries a statement context.  So the cited statement is the
+   innermost statement whose execution failed.
+
+   LAZY (lazy_error_ctx_valid, lazy_run_error_ctx_valid, lazy_ctx_invariant): an error of `lexec_file` (both
+   phases) is the bare cancellation, or sits in one statement context, or — for a conflict between two statements
+   (duplicate attribute / duplicate scoped variable found during evaluation) — in a context naming BOTH; the cause
+   is unwrapped; and EVERY context c is a valid context of the run (`valid_ctx`): there are an executed
+   (stanza, match) pair of the run and a statement s of that stanza (any depth: the failing statement or, in
+   nested blocks, a statement enclosing it) with c.stanza_location = start of the stanza, c.node = first full-match
+   node of the match, c.statement_location = location of s.  In particular NO non-cancellation error escapes
+   without a statement context (the alternative `unwrapped e` of the older `lazy_error_ctx_shape` is impossible).
+
+   Left to the correspondence stream (see `partial`): that in lazy mode the cited statement is the one that
+   created the failing thunk / deferred statement (the theorem says: some statement of the right stanza), and the
+   node KIND / source position shown for the node (the model identifies nodes by index). *)
+From TSG Require Import Model.Strict Model.Lazy Proofs.StrictMeta Proofs.ErrorCtx Proofs.Captures Proofs.ErrorCtxValid.
 
 (* strict: one block execution (stanza st on match m whose full-match node is n) *)
 Theorem strict_error_ctx : forall {rx : Type} t fl cfg glob (regexes : list rx) find call fuel st m s p e n rest,
@@ -26,6 +44,58 @@ Theorem strict_file_error_ctx : forall {rx : Type} t fl cfg glob (regexes : list
     end.
 Proof. intros rx. exact (@strict_file_error_ctx_lemma rx). Qed.
 
+(* strict: the statement the context cites.  `stmt_in st s'`: s' occurs in the stanza's statements at any depth.
+   `fails_directly .. z n m s' e1`: some run of s' ITSELF (environment: match m, error context (loc of s', z, n))
+   returned e1 and e1 carries no statement context. *)
+Theorem strict_error_stmt_loc : forall {rx : Type} t fl cfg glob (regexes : list rx) find call fuel st m s p e n rest,
+  call_errors_base call ->
+  nodes_for_capture m (st_full_stanza_idx st) = n :: rest ->
+  exec_stanza t fl cfg glob regexes find call fuel st m s p = Err e ->
+  (exists l, e = ECancelled l) \/
+  exists s' e0 e1,
+    stmt_in st s' /\
+    e = EInContext (CtxStmts [{| sc_stmt := stmt_loc s'; sc_stanza := st_start st; sc_node := n |}]) e0 /\
+    (e0 = e1 \/ e0 = EInContext CtxOther e1) /\
+    (exists fuel' le s0 p0,
+        exec_stmt t fl cfg glob regexes find call fuel' le s' s0 p0 = Err e1 /\ unwrapped e1 /\
+        le_ctx le = {| sc_stmt := stmt_loc s'; sc_stanza := st_start st; sc_node := n |} /\ le_match le = m).
+Proof.
+  intros rx t fl cfg glob regexes find call fuel st m s p e n rest Hc Hn H.
+  exact (strict_stanza_error_loc_lemma t fl cfg glob regexes find call Hc (st_start st) n m fuel st s p e rest eq_refl Hn H).
+Qed.
+
+(* ... and that failure is not one of a statement nested in s': the error of a nested block (statements of an
+   `if`/`for` body: wrap = identity; of a scan arm: wrap = with_context(Other)) is never without statement context *)
+Theorem strict_nested_error_not_plain : forall {rx : Type} t fl cfg glob (regexes : list rx) find call fuel le wrap body s p e,
+  call_errors_base call ->
+  (wrap = (fun c => c) \/ wrap = ctx_wrap CtxOther) ->
+  iterM (fun st => let c := ctx_update (le_ctx le) st in
+                   ctx_wrap (CtxStmts [c]) (wrap (exec_stmt t fl cfg glob regexes find call fuel (le_with_ctx le c) st))) body s p = Err e ->
+  ~ unwrapped e.
+Proof.
+  intros rx t fl cfg glob regexes find call fuel le wrap body s p e Hc Hw H.
+  apply (located_not_unwrapped t fl cfg glob regexes find call (sc_stanza (le_ctx le)) (sc_node (le_ctx le)) (le_match le) (stmts_all body)).
+  refine (strict_block_error_lemma t fl cfg glob regexes find call Hc _ _ _ fuel le wrap body _ eq_refl eq_refl eq_refl s p e H).
+  destruct Hw as [-> | ->]; [apply wrap_id|apply wrap_other].
+Qed.
+
+(* strict, whole execution phase *)
+Theorem strict_file_error_stmt_loc : forall {rx : Type} t fl cfg glob (regexes : list rx) find call fuel sts ms s p e,
+  call_errors_base call ->
+  exec_file t fl cfg glob regexes find call fuel sts ms s p = Err e ->
+  (exists l, e = ECancelled l) \/
+  exists st m, In (st, m) (blocks sts ms) /\
+    match nodes_for_capture m (st_full_stanza_idx st) with
+    | n :: _ =>
+        exists s' e0 e1,
+          stmt_in st s' /\
+          e = EInContext (CtxStmts [{| sc_stmt := stmt_loc s'; sc_stanza := st_start st; sc_node := n |}]) e0 /\
+          (e0 = e1 \/ e0 = EInContext CtxOther e1) /\
+          fails_directly t fl cfg glob regexes find call (st_start st) n m s' e1
+    | [] => False
+    end.
+Proof. intros rx. exact (@strict_file_error_loc_lemma rx). Qed.
+
 (* lazy (both phases): an error is the bare cancellation, or sits in exactly one statement context, or —
    for a conflict between two statements (duplicate attribute / duplicate scoped variable) — in a
    context naming BOTH statements *)
@@ -36,6 +106,41 @@ Theorem lazy_error_ctx_shape : forall {rx : Type} t fl cfg glob (regexes : list 
   exists cs e0, e = EInContext (CtxStmts cs) e0 /\ (length cs = 1 \/ length cs = 2)%nat.
 Proof. intros rx t fl cfg glob regexes find call fuel ms s p e Hc H. exact (lexec_file_error_shape t fl cfg glob regexes find call Hc fuel ms s p e H). Qed.
 
+(* lazy: every context of an error is a valid context of the run, and there always is one.
+   valid_ctx fl ms c := exists i st m n rest, In (i, m) ms /\ nth_error (f_stanzas fl) (N.to_nat i) = Some st /\
+     nodes_for_capture m (st_full_file_idx st) = n :: rest /\ sc_stanza c = st_start st /\ sc_node c = n /\
+     stmt_loc_in st (sc_stmt c)                      (the location of a statement of st, at any depth) *)
+Theorem lazy_error_ctx_valid : forall {rx : Type} t fl cfg glob (regexes : list rx) find call fuel ms g0 p e,
+  call_errors_base call ->
+  lexec_file t fl cfg glob regexes find call fuel ms (linit g0) p = Err e ->
+  (exists l, e = ECancelled l) \/
+  exists cs e0, e = EInContext (CtxStmts cs) e0 /\ unwrapped e0 /\ (length cs = 1 \/ length cs = 2)%nat /\ Forall (valid_ctx fl ms) cs.
+Proof. intros rx. exact (@lexec_file_error_valid_lemma rx). Qed.
+
+(* whole lazy run: the only other errors are those of check_globals, raised before any stanza is executed *)
+Theorem lazy_run_error_ctx_valid : forall {rx : Type} t fl cfg supplied budget (regexes : list rx) find call fuel ms g0 e,
+  call_errors_base call ->
+  run_lazy t fl cfg supplied budget regexes find call fuel ms g0 = Err e ->
+  check_globals (f_globals fl) (globals_nested supplied) = Err e \/
+  (exists l, e = ECancelled l) \/
+  exists cs e0, e = EInContext (CtxStmts cs) e0 /\ unwrapped e0 /\ (length cs = 1 \/ length cs = 2)%nat /\ Forall (valid_ctx fl ms) cs.
+Proof. intros rx. exact (@run_lazy_error_valid_lemma rx). Qed.
+
+(* the same from ANY state whose stored statement contexts (thunks, deferred statements, pending scoped
+   definitions, prev_element_debug_info) are valid and in which no scoped variable is being forced; the invariant
+   holds initially and is kept by successful runs *)
+Theorem lazy_ctx_invariant : forall {rx : Type} t fl cfg glob (regexes : list rx) find call fuel ms s p,
+  call_errors_base call -> lazy_ctx_inv fl ms s ->
+  match lexec_file t fl cfg glob regexes find call fuel ms s p with
+  | Ok (_, s', _) => lazy_ctx_inv fl ms s'
+  | Err e => (exists l, e = ECancelled l) \/
+             exists cs e0, e = EInContext (CtxStmts cs) e0 /\ unwrapped e0 /\ (length cs = 1 \/ length cs = 2)%nat /\ Forall (valid_ctx fl ms) cs
+  | _ => True
+  end.
+Proof. intros rx. exact (@lexec_file_ctx_valid_lemma rx). Qed.
+Theorem lazy_ctx_invariant_init : forall fl ms g, lazy_ctx_inv fl ms (linit g).
+Proof. exact lazy_ctx_inv_init. Qed.
+
 (* the innermost statement context wins: wrapping an error that already has one changes nothing *)
 Theorem with_context_keeps_innermost : forall c l e, add_context c (EInContext (CtxStmts l) e) = EInContext (CtxStmts l) e.
 Proof. reflexivity. Qed.
@@ -44,3 +149,62 @@ Example c20_nonvacuous :
   in_stmt_ctx (3, 0) 7 (add_context (CtxStmts [{| sc_stmt := (4, 2); sc_stanza := (3, 0); sc_node := 7 |}])
                           (add_context CtxOther EExpectedInteger)).
 Proof. exists (4, 2), (EInContext CtxOther EExpectedInteger). split; [reflexivity|]. apply U_other, U_base. exact I. Qed.
+
+(* ---- concrete failing runs: the hypotheses are satisfiable and the conclusions say something ---- *)
+Definition ex_call : ident -> graph -> list value -> res (value * graph) := fun _ _ _ => Err EUndefinedFunction.
+Lemma ex_call_base : call_errors_base ex_call.
+Proof. intros f g args e H. inversion H; subst. exact I. Qed.
+Definition ex_tree : tree := {| t_src := []; t_nodes := [] |}.
+
+(* lazy: `node x`, then inside an `if` block `attr (x) k = 1` (line 3), then `attr (x) k = 2` (line 4): the conflict
+   is found in the evaluation phase and names BOTH statements — the first by the location of the statement nested
+   in the `if`; both contexts are valid, and validity is not trivial: a location of no statement is not valid *)
+Example c20_lazy_conflict_nonvacuous :
+  let x := [120] in let k := [107] in
+  let st := {| st_stmts := [SNode (VarU x (1, 2)) x (1, 0);
+                            SIf [([CBool ETrue (2, 3)], [SAttrNode (EUnscoped x (3, 7)) [Attr k (EInt 1)] (3, 2)], (2, 0))] (2, 0);
+                            SAttrNode (EUnscoped x (4, 5)) [Attr k (EInt 2)] (4, 0)];
+               st_full_stanza_idx := 0; st_full_file_idx := 0; st_start := (0, 0) |} in
+  let fl := {| f_globals := []; f_inherited := []; f_shorthands := []; f_stanzas := [st] |} in
+  let ms := [(0, [(0, [7])])] in
+  let c1 := {| sc_stmt := (3, 2); sc_stanza := (0, 0); sc_node := 7 |} in
+  let c2 := {| sc_stmt := (4, 0); sc_stanza := (0, 0); sc_node := 7 |} in
+  call_errors_base ex_call /\
+  run_lazy ex_tree fl config0 [[]] None (@nil unit) (fun _ _ => None) ex_call 50 ms [] = Err (EInContext (CtxStmts [c1; c2]) EDuplicateAttribute) /\
+  valid_ctx fl ms c1 /\ valid_ctx fl ms c2 /\
+  ~ valid_ctx fl ms {| sc_stmt := (2, 3); sc_stanza := (0, 0); sc_node := 7 |} /\
+  ~ valid_ctx fl ms {| sc_stmt := (4, 0); sc_stanza := (0, 0); sc_node := 8 |}.
+Proof.
+  cbv zeta. split; [exact ex_call_base|]. split; [vm_compute; reflexivity|].
+  split; [|split; [|split]].
+  - eexists 0, _, _, 7, []. split; [left; reflexivity|]. split; [reflexivity|]. split; [reflexivity|]. split; [reflexivity|]. split; [reflexivity|].
+    eexists. split; [right; right; left; reflexivity|reflexivity].
+  - eexists 0, _, _, 7, []. split; [left; reflexivity|]. split; [reflexivity|]. split; [reflexivity|]. split; [reflexivity|]. split; [reflexivity|].
+    eexists. split; [right; right; right; left; reflexivity|reflexivity].
+  - intros (i & st & m & n & rest & [Hin|[]] & Hst & Hn & _ & _ & (s & Hs & Hl)). inversion Hin; subst. cbn in Hst. inversion Hst; subst.
+    cbn in Hs, Hl. destruct Hs as [<-|[<-|[<-|[<-|[]]]]]; discriminate.
+  - intros (i & st & m & n & rest & [Hin|[]] & Hst & Hn & _ & Hnode & _). inversion Hin; subst. cbn in Hst. inversion Hst; subst.
+    cbn in Hn. inversion Hn.
+Qed.
+
+(* strict: the failing `attr (5) k = 1` is nested in an `if`; the error cites the nested statement (line 3), not the
+   enclosing `if` (line 2), and the nested statement failed directly *)
+Example c20_strict_innermost_nonvacuous :
+  let x := [120] in let k := [107] in
+  let inner := SAttrNode (EInt 5) [Attr k (EInt 1)] (3, 2) in
+  let st := {| st_stmts := [SNode (VarU x (1, 2)) x (1, 0); SIf [([CBool ETrue (2, 3)], [inner], (2, 0))] (2, 0)];
+               st_full_stanza_idx := 0; st_full_file_idx := 0; st_start := (0, 0) |} in
+  let m := [(0, [7])] in
+  call_errors_base ex_call /\
+  exec_file ex_tree {| f_globals := []; f_inherited := []; f_shorthands := []; f_stanzas := [st] |} config0 [[]] (@nil unit) (fun _ _ => None)
+            ex_call 50 [st] [[m]] (sinit []) (polls0 None)
+    = Err (EInContext (CtxStmts [{| sc_stmt := (3, 2); sc_stanza := (0, 0); sc_node := 7 |}]) EExpectedGraphNode) /\
+  stmt_in st inner /\
+  fails_directly ex_tree {| f_globals := []; f_inherited := []; f_shorthands := []; f_stanzas := [st] |} config0 [[]] (@nil unit) (fun _ _ => None)
+                 ex_call (0, 0) 7 m inner EExpectedGraphNode.
+Proof.
+  cbv zeta. split; [exact ex_call_base|]. split; [vm_compute; reflexivity|]. split; [right; right; left; reflexivity|].
+  exists 10%nat, {| le_match := [(0, [7])]; le_full := 0; le_caps := []; le_ctx := {| sc_stmt := (3, 2); sc_stanza := (0, 0); sc_node := 7 |} |},
+         (sinit []), (polls0 None).
+  split; [vm_compute; reflexivity|]. split; [apply U_base; exact I|]. split; reflexivity.
+Qed.
